@@ -86,6 +86,32 @@ def build_gate_set(g):
     raise ValueError(g)
 
 
+@qp.register_resources({qp.H: 2, qp.CZ: 1})
+def _my_cnot(wires, **__):
+    qp.H(wires=wires[1])
+    qp.CZ(wires=wires)
+    qp.H(wires=wires[1])
+
+
+@qp.register_resources({qp.CNOT: 2, qp.RX: 1})
+def _my_isingxx(phi, wires, **__):
+    qp.CNOT(wires=wires)
+    qp.RX(phi, wires=[wires[0]])
+    qp.CNOT(wires=wires)
+
+
+@qp.register_resources({qp.RZ: 2, qp.RX: 1, qp.GlobalPhase: 1})
+def _my_h(wires, **__):
+    qp.RZ(math.pi / 2, wires=wires)
+    qp.RX(math.pi / 2, wires=wires)
+    qp.RZ(math.pi / 2, wires=wires)
+    qp.GlobalPhase(-math.pi / 2)
+
+
+DECOMPS = {"fixed_cnot": {"fixed_decomps": {qp.CNOT: _my_cnot}},
+           "alt_isingxx": {"alt_decomps": {qp.IsingXX: [_my_isingxx]}},
+           "fixed_h_alt_cnot": {"fixed_decomps": {qp.H: _my_h}, "alt_decomps": {qp.CNOT: [_my_cnot]}}}
+
 STOPS = {None: None,
          "w1": lambda op: len(op.wires) <= 1,
          "noparam2": lambda op: len(op.wires) == 2 and len(op.parameters) == 0,
@@ -298,6 +324,8 @@ def run_case(case):
                         kw["stopping_condition"] = stop
                     if case.get("minimize"):
                         kw["minimize_work_wires"] = True
+                    if case.get("decomps"):
+                        kw.update(DECOMPS[case["decomps"]])
                     [tape], _ = qp.transforms.decompose(qp.tape.QuantumScript(ops), **kw)
                     out_ops = list(tape.operations)
                 else:
@@ -430,6 +458,17 @@ def subtree_info(sol, node, accf, memo):
             return False
         if not getattr(rule, "exact_resources", True):
             return False
+        # premise "every rule used is exact", validated on this instance: declared resources = operators produced
+        try:
+            declared = {cname(k): int(v) for k, v in rule.compute_resources(**_get_decomp_args(o)[0]).gate_counts.items() if v}
+        except Exception:
+            return False
+        actual = {}
+        for ch in n["children"]:
+            k = cname(abstractify(ch["op"]))
+            actual[k] = actual.get(k, 0) + 1
+        if declared != actual:
+            return "declared-resources-differ"
     return exact
 
 
@@ -450,8 +489,9 @@ def estimate_checks(tr, accf, maxexp):
         o = r["op"]
         if isinstance(o, (Allocate, Deallocate, qp.ops.Conditional)) or accf(o):
             continue
-        if not subtree_info(sol, r, accf, {}):
-            res.append({"op": repr(o)[:80], "status": "inexact-or-fallback"})
+        info = subtree_info(sol, r, accf, {})
+        if info is not True:
+            res.append({"op": repr(o)[:80], "status": info or "inexact-or-fallback"})
             continue
         try:
             est = sol.resource_estimate(o, r["nww"])
